@@ -330,13 +330,31 @@ func ruleC04_5(c *Ctx, r *Rep) {
 	}
 	m := u.Mut("attempt_at", "set")[0]
 	src := sources(m.Arg)
+	// the delay is computed for THIS delivery: now.Add(<result of NextDelayFor(sub, d.Attempts)>) where d is the row being updated
 	okArg := false
-	for _, ci := range callsIn(fn, false, func(cal *ssa.Function, _ ssa.CallInstruction) bool { return cal.Name() == "NextDelayFor" }) {
-		if sources(ci.Common().Args[1])["field:Attempts"] {
-			okArg = true
+	why := "nack's new attempt_at does not derive from now and NextDelayFor(sub, d.Attempts)"
+	if add, isAdd := resolve(m.Arg).(*ssa.Call); isAdd && add.Call.StaticCallee() != nil && add.Call.StaticCallee().Name() == "Add" && len(add.Call.Args) == 2 {
+		if ex, isEx := strip(add.Call.Args[1]).(*ssa.Extract); isEx {
+			if nd, isCall := ex.Tuple.(*ssa.Call); isCall && nd.Call.StaticCallee() != nil && nd.Call.StaticCallee().Name() == "NextDelayFor" {
+				e1 := elementLoads(nd.Call.Args[1])
+				e2 := elementLoads(u.RootArg)
+				same := false
+				for v := range e1 {
+					if e2[v] {
+						same = true
+					}
+				}
+				if same && sources(nd.Call.Args[1])["field:Attempts"] {
+					okArg = true
+				} else {
+					why = "the backoff is not computed from the attempt count of the delivery being rescheduled"
+				}
+			}
+		} else {
+			why = "the reschedule delay is not the direct result of NextDelayFor for this delivery (e.g. it is cached per subscription): deliveries with different attempt counts get each other's backoff"
 		}
 	}
-	r.Check("C04.5", "C04.5:reschedule@"+fnNack, m.Pos, src["call:NextDelayFor"] && src["call:Now"] && okArg, "nack reschedules by now + backoff(sub, attempts)", "nack's new attempt_at does not derive from now and NextDelayFor(sub, d.Attempts)")
+	r.Check("C04.5", "C04.5:reschedule@"+fnNack, m.Pos, src["call:NextDelayFor"] && src["call:Now"] && okArg, "nack reschedules by now + backoff(sub, attempts of this delivery)", why)
 }
 
 func ruleC04_6(c *Ctx, r *Rep) {
@@ -864,6 +882,22 @@ func ruleC06_5(c *Ctx, r *Rep) {
 	if dl != nil && len(sel.Terms) == 1 {
 		for _, ci := range callsIn(fn, false, func(cal *ssa.Function, _ ssa.CallInstruction) bool { return cal == dl }) {
 			r.Check("C06.5", "C06.5:from-candidates@"+fnNack, ci.Pos(), dependsOnCall(ci.Common().Args[2], sel.Terms[0].Call), "", "nack dead-letters something that is not one of its selected candidates")
+			// one pass over the selected rows (each row once): the loop ranges over the select's result itself
+			okLoop := false
+			if l := innermostLoop(loopsOf(fn), ci.Block()); l != nil {
+				for b := range l.Blocks {
+					for _, in := range b.Instrs {
+						if ia, isIA := in.(*ssa.IndexAddr); isIA && isResultOf(ia.X, sel.Terms[0].Call) {
+							if bo, isB := ia.Index.(*ssa.BinOp); isB && bo.Op == token.ADD {
+								if _, isPhi := bo.X.(*ssa.Phi); isPhi {
+									okLoop = true
+								}
+							}
+						}
+					}
+				}
+			}
+			r.Check("C06.5", "C06.5:each-candidate-once@"+fnNack, ci.Pos(), okLoop, "the nack walks its selected rows (distinct by primary key), not the requested id list", "the nack's dead-letter / reschedule loop does not range over the selected rows themselves: an id repeated in one request is processed — and forwarded — more than once")
 		}
 	}
 }
